@@ -25,6 +25,8 @@ type GenOpts struct {
 	MaxVisits    int
 	Batch        bool // some nodes are (sequential) batch nodes
 	CtxAwareErrs bool // some nodes report an observed cancellation as their own failure
+	SelfNesting  bool // a flow may contain itself as a node
+	MoreErrKinds bool // also errors that wrap a context error while the context is alive, and Temporary() errors
 }
 
 // GenNode draws a scripted node spec.
@@ -43,6 +45,9 @@ func GenNode(r *rand.Rand, o GenOpts, nActions int) NodeSpec {
 	}
 	if o.CtxAwareErrs && r.IntN(3) == 0 {
 		ns.ErrKind = ECtxAware
+	}
+	if o.MoreErrKinds && r.IntN(3) == 0 {
+		ns.ErrKind = []int{ECtxLike, ETemporary}[r.IntN(2)]
 	}
 	if KindCanFB(k) && k >= KFnOptRes {
 		ns.HasFB = r.IntN(2) == 0
@@ -149,8 +154,21 @@ func GenFlowScenario(r *rand.Rand, o GenOpts) *Scenario {
 				d = depthOf[m] + 1
 			}
 		}
+		for _, m := range members {
+			if r.IntN(6) == 0 { // a connection on the empty action is its own pair and can never be followed
+				fs.Conns = append(fs.Conns, Conn{m, "", members[r.IntN(len(members))]})
+			}
+		}
 		sc.Nodes = append(sc.Nodes, NodeSpec{Kind: KFlow, N: 1, Flow: fs})
 		id := len(sc.Nodes) - 1
+		if o.SelfNesting && r.IntN(4) == 0 {
+			// the flow contains itself as a node (recursion ends when the scripts run out)
+			from := members[r.IntN(len(members))]
+			fs.Conns = append(fs.Conns, Conn{from, Alphabet[r.IntN(nActions)], id})
+			if r.IntN(2) == 0 {
+				fs.Conns = append(fs.Conns, Conn{id, Alphabet[r.IntN(nActions)], members[r.IntN(len(members))]})
+			}
+		}
 		depthOf = append(depthOf, d)
 		return id
 	}
@@ -215,9 +233,11 @@ func (sc *Scenario) MaxNesting() int {
 	var d func(id int, seen map[int]bool) int
 	d = func(id int, seen map[int]bool) int {
 		s := &sc.Nodes[id]
-		if s.Kind != KFlow {
+		if s.Kind != KFlow || seen[id] {
 			return 0
 		}
+		seen[id] = true
+		defer delete(seen, id)
 		best := 0
 		ms := map[int]bool{s.Flow.Start: true}
 		for _, c := range s.Flow.Conns {
